@@ -6,6 +6,7 @@ import Mathlib.Tactic
   `name,region,zone,lat,lon` adds exactly the record with those fields (coordinates through
   `dms_to_float` with limits 90 / 180).  Every statement is for arbitrary strings.
 -/
+set_option linter.unusedSectionVars false
 namespace Astral.C17Parse
 open Astral
 
@@ -79,8 +80,7 @@ theorem split_piece_append (sep : Nat) (p : Str) (hp : sep ∉ p) (rest : Str) :
     have hc : c ≠ sep := by intro e; apply hp; simp [e]
     have hp' : sep ∉ p := by intro m; apply hp; simp [m]
     show splitOnChar sep (c :: (p ++ sep :: rest)) = _
-    unfold splitOnChar
-    rw [if_neg hc, ih hp']
+    rw [splitOnChar, if_neg hc, ih hp']
 
 theorem split_free (sep : Nat) (p : Str) (hp : sep ∉ p) : splitOnChar sep p = [p] := by
   induction p with
@@ -88,8 +88,7 @@ theorem split_free (sep : Nat) (p : Str) (hp : sep ∉ p) : splitOnChar sep p = 
   | cons c p ih =>
     have hc : c ≠ sep := by intro e; apply hp; simp [e]
     have hp' : sep ∉ p := by intro m; apply hp; simp [m]
-    unfold splitOnChar
-    rw [if_neg hc, ih hp']
+    rw [splitOnChar, if_neg hc, ih hp']
 
 /-- **split ∘ join = id** on separator-free pieces (at least one piece) -/
 theorem split_join (sep : Nat) (ps : List Str) (hne : ps ≠ []) (hfree : ∀ p ∈ ps, sep ∉ p) :
@@ -110,13 +109,13 @@ variable {α : Type} [Add α] [Sub α] [Mul α] [Div α] [Neg α] [LT α] [LE α
 /-- blank lines add nothing -/
 theorem blank_line_skipped (db : Db α) (line : Str) (rest : List Str) (h : stripWs line = []) :
     addLines db (line :: rest) = addLines db rest := by
-  unfold addLines
+  rw [addLines]
   simp only [h]
 
 /-- `#` comment lines add nothing -/
 theorem comment_line_skipped (db : Db α) (line : Str) (rest : List Str) (tail : Str)
     (h : stripWs line = 35 :: tail) : addLines db (line :: rest) = addLines db rest := by
-  conv_lhs => unfold addLines
+  rw [addLines]
   simp only [h, if_true]
 
 /-- five (or more) fields make the record of the first five, coordinates through
@@ -132,7 +131,7 @@ theorem fields_record (n r t la lo : Str) (more : List Str) (x y : α)
 theorem too_few_fields (fs : List Str) (h : fs.length < 4) :
     recFromFields (α := α) fs = .error .indexError := by
   unfold recFromFields
-  rcases fs with _ | ⟨a, _ | ⟨b, _ | ⟨c, _ | ⟨d, e⟩⟩⟩⟩ <;> simp at h ⊢
+  rcases fs with _ | ⟨a, _ | ⟨b, _ | ⟨c, _ | ⟨d, e⟩⟩⟩⟩ <;> simp at h ⊢ <;> omega
 
 /-- **a well-formed line adds exactly its record**: the text `name,region,zone,lat,lon`
     (comma-free fields, no surrounding white space, not a comment) followed by other lines -/
@@ -144,7 +143,7 @@ theorem line_adds_record (db : Db α) (n r t la lo : Str) (rest : List Str) (x y
     (hx : dmsToFloat (.str la) (some (90.0 : α)) = .ok x)
     (hy : dmsToFloat (.str lo) (some (180.0 : α)) = .ok y) :
     addLines db (joinWith 44 [n, r, t, la, lo] :: rest) = addLines (addRec db ⟨n, r, t, x, y⟩) rest := by
-  conv_lhs => unfold addLines
+  rw [addLines]
   simp only [hstrip]
   rcases hl : joinWith 44 [n, r, t, la, lo] with _ | ⟨c, tl⟩
   · exact absurd hl hne
